@@ -1,7 +1,7 @@
 (* C08 — Encoding is deterministic, canonical, and always decodable.
    Statements only (copied from coq/theories by bin/mkprops); each proof is `exact <lemma>`. *)
 From Coq Require Import Ascii String ZArith List Bool Permutation.
-From GoCose Require Import Bytes Cbor CborProofs Res GoVal Obs Ecdsa EcdsaProofs Fx Headers Enc Dec Msg HashEnv Key SigVer Run TbsProofs FlowProofs DecProofs KeyProofs HdrProofs EncProofs EncCanon NoPanic Effects MoreProofs KeyCbor EncDec HdrRoundTrip WireLeg RulesTie HeWire.
+From GoCose Require Import Bytes Cbor CborProofs Res GoVal Obs Ecdsa EcdsaProofs Fx Headers Enc Dec Msg HashEnv Key SigVer Run TbsProofs FlowProofs DecProofs KeyProofs HdrProofs EncProofs EncCanon NoPanic Effects MoreProofs KeyCbor EncDec HdrRoundTrip WireLeg RulesTie HeWire ModesTie Bignum FixedPoint ClearedForm CastAlg.
 From GoCose.Gen Require Import Generated.
 Import ListNotations.
 Open Scope Z_scope.
@@ -30,25 +30,25 @@ Print Assumptions C08_enc_heads_shortest.
 
 (* by induction over arbitrarily nested values: the output is the serialisation of a well-formed tree with shortest heads and strictly sorted map keys *)
 Theorem C08_enc_canonical :
-  forall g, encodes g.
+  forall kb g, encodes kb g.
 Proof. exact enc_canonical. Qed.
 Print Assumptions C08_enc_canonical.
 
 (* and therefore parses back to exactly one canonical item *)
 Theorem C08_enc_output_parses :
-  forall g b,
-  gv_plain g = true -> enc g = Acc b -> exists w, parse_full b = Some w /\ canonical w = true.
+  forall kb g b,
+  gv_plain g = true -> enc kb g = Acc b -> exists w, parse_full b = Some w /\ canonical w = true.
 Proof. exact enc_output_parses. Qed.
 Print Assumptions C08_enc_output_parses.
 
 Theorem C08_enc_hmap_canonical :
-  forall l b,
-  gv_plain (GMap l) = true -> enc_hmap l = Acc b -> exists w, b = ser w /\ wf w = true /\ canonical w = true.
+  forall kb l b,
+  gv_plain (GMap l) = true -> enc_hmap kb l = Acc b -> exists w, b = ser w /\ wf w = true /\ canonical w = true.
 Proof. exact enc_hmap_canonical. Qed.
 Print Assumptions C08_enc_hmap_canonical.
 
 Theorem C08_canonical_example :
-  enc (GMap [GInt KInt 256; GStr [97]; GInt KInt64 (-1); GArr [GBytes []; GBool true]; GStr []; GInt KUint8 24]) =
+  enc false (GMap [GInt KInt 256; GStr [97]; GInt KInt64 (-1); GArr [GBytes []; GBool true]; GStr []; GInt KUint8 24]) =
   Acc [163; 25; 1; 0; 97; 97; 32; 130; 64; 245; 96; 24; 24].
 Proof. exact canonical_example. Qed.
 Print Assumptions C08_canonical_example.
@@ -82,13 +82,13 @@ Print Assumptions C08_ser_inj.
 
 (* always decodable: by induction over arbitrarily nested values (integers of int64, UTF-8 text, byte strings, booleans, nil, arrays, maps with integer / text keys) the encoder output is the serialisation of a canonical tree that the library decoder accepts, and it decodes to the same value (integer kinds come back as int64, a nil []byte as nil, map entries in some order) *)
 Theorem C08_enc_dec :
-  forall g, encdec g.
+  forall kb g, encdec kb g.
 Proof. exact enc_dec. Qed.
 Print Assumptions C08_enc_dec.
 
 Theorem C08_enc_dec_bytes :
-  forall g b,
-  simple g = true -> enc g = Acc b ->
+  forall kb g b,
+  simple g = true -> enc kb g = Acc b ->
   exists w d, parse_full b = Some w /\ canonical w = true /\ dec true w = Acc d /\ rel g d.
 Proof. exact enc_dec_bytes. Qed.
 Print Assumptions C08_enc_dec_bytes.
@@ -96,7 +96,7 @@ Print Assumptions C08_enc_dec_bytes.
 Theorem C08_enc_dec_example :
   let g := GMap [GInt KInt 256; GStr [97]; GInt KInt8 (-1); GArr [GBytes []; GBool true; GNilBytes]; GStr []; GMap [GInt KUint8 1; GNil]] in
   simple g = true /\
-  match enc g with
+  match enc false g with
   | Acc b => match parse_full b with
              | Some w => dec true w = Acc (GMap [GInt KInt64 256; GStr [97]; GInt KInt64 (-1); GArr [GBytes []; GBool true; GNil];
                                                  GStr []; GMap [GInt KInt64 1; GNil]])
@@ -112,8 +112,8 @@ Theorem C08_protected_roundtrip :
   forall l pb,
   l <> [] -> simple (GMap l) = true -> (forall k v, entry_in k v l -> okval v) ->
   enc_protected (Some l) = Acc pb ->
-  (forall m, enc_hmap l = Acc m -> within_limits m) ->
-  exists m dl, enc_hmap l = Acc m /\ pb = enc_bstr m /\
+  (forall m, enc_hmap true l = Acc m -> within_limits m) ->
+  exists m dl, enc_hmap true l = Acc m /\ pb = enc_bstr m /\
                unmarshal_protected pb = Acc (cast_alg dl) /\ hrel l dl /\ validate_params dl true = true.
 Proof. exact protected_roundtrip. Qed.
 Print Assumptions C08_protected_roundtrip.
@@ -125,3 +125,27 @@ Theorem C08_unprotected_roundtrip :
   exists dl, unmarshal_unprotected ub = Acc dl /\ hrel l dl /\ validate_params dl false = true.
 Proof. exact unprotected_roundtrip. Qed.
 Print Assumptions C08_unprotected_roundtrip.
+
+(* the option sets of the four CBOR modes, as translated from cbor.go's init() on this run *)
+Theorem C08_modes_as_modelled :
+  cbor_modes = expected_modes.
+Proof. exact modes_as_modelled. Qed.
+Print Assumptions C08_modes_as_modelled.
+
+(* every use of a mode variable in the package (function, mode, method, argument), as translated on this run *)
+Theorem C08_mode_uses_as_modelled :
+  cbor_mode_uses = expected_mode_uses.
+Proof. exact mode_uses_as_modelled. Qed.
+Print Assumptions C08_mode_uses_as_modelled.
+
+(* the map inside the protected bucket is encoded by the mode that keeps big integers as bignums, everything else by the other one *)
+Theorem C08_bignum_modes :
+  bignum_modes_hold.
+Proof. exact bignum_modes. Qed.
+Print Assumptions C08_bignum_modes.
+
+(* every encoder sorts keys and forbids indefinite lengths; every decoder refuses duplicate keys and indefinite lengths; the message decoders refuse tags *)
+Theorem C08_mode_options :
+  mode_options_hold.
+Proof. exact mode_options. Qed.
+Print Assumptions C08_mode_options.
